@@ -40,6 +40,15 @@ class Oracle:
         pass
 
 
+def _safe_repr(r):
+    """repr for the event log: never an object address"""
+    if _heapish(r):
+        return repr(obs(r))
+    if isinstance(r, (list, tuple)) and not hasattr(r, "_fields"):
+        return "[" + ",".join(_safe_repr(x) for x in r) + "]"
+    return repr(r)
+
+
 def _heapish(o):
     return isinstance(o, (TextgridTier, Textgrid, audio.Wav))
 
@@ -107,7 +116,7 @@ class Run:
             if _heapish(r):
                 line.append(obs(r))
             elif kind == "query":
-                line.append(repr(r))
+                line.append(_safe_repr(r))
         self.h.update(repr(line).encode())
         if self.trace is not None:
             self.trace.append(f"  #{w.seq} {_fmt_step(step)} -> {out.outcome}"
